@@ -4,6 +4,14 @@ import zipfile
 from pathlib import Path
 
 
+def _open(src):
+    """Names without the UTF-8 flag are UTF-8 in Numbers-written archives (the library reads them the same way)."""
+    try:
+        return zipfile.ZipFile(src, metadata_encoding="utf-8")
+    except UnicodeDecodeError:
+        return zipfile.ZipFile(src)
+
+
 def members(path):
     """-> ordered list of (name, bytes) for every file of the document (Index.zip expanded)."""
     path = Path(path)
@@ -15,17 +23,17 @@ def members(path):
             rel = str(sub.relative_to(path))
             data = sub.read_bytes()
             if sub.name.lower() == "index.zip":
-                with zipfile.ZipFile(io.BytesIO(data)) as z:
+                with _open(io.BytesIO(data)) as z:
                     for n in z.namelist():
                         out.append((n, z.read(n)))
             else:
                 out.append((rel, data))
         return out
-    with zipfile.ZipFile(path) as z:
+    with _open(path) as z:
         for n in z.namelist():
             data = z.read(n)
             if n.lower().endswith("index.zip"):
-                with zipfile.ZipFile(io.BytesIO(data)) as z2:
+                with _open(io.BytesIO(data)) as z2:
                     for n2 in z2.namelist():
                         out.append((n2, z2.read(n2)))
             else:
